@@ -186,7 +186,7 @@ def _model_stage(tier, seed, out):
                              ("C05_OptGen", "C05_OptGen_thorough2", {}),
                              ("C05_OptGen", "C05_OptGen_alias_thorough", {}),
                              ("C05_OptGen", "C05_OptGen_fb", {}),
-                             ("C05_OptGen", "C05_OptGen_nil", {})]}[tier]
+                             ("C05_OptGen", "C05_OptGen_nil_thorough", {})]}[tier]
     ctl = ([("C05_Gen", c, {}) for c in MUST_HOLD]
            + [("C05_OptGen" if c.startswith("C05_OptGen") else "C05_Gen", c, {})
               for c in MUST_REFUTE])
